@@ -4,13 +4,13 @@
 package crash
 
 import (
-	"testing/fstest"
 	"bytes"
 	"errors"
 	"fmt"
 	"io"
 	"os"
 	"strings"
+	"testing/fstest"
 	"time"
 
 	"github.com/uhn/ggql/pkg/ggql"
@@ -59,14 +59,14 @@ directive @mark(x: Int = 1, l: [String]) on FIELD | QUERY | FRAGMENT_SPREAD | IN
 // ---- reflection root -----------------------------------------------------------------------
 
 type RQ struct {
-	Str  string
-	Num  int
-	When time.Time
-	Obj  *RQ
-	Objs []*RQ
-	Any  interface{}
-	Anys []interface{}
-	Strs []string
+	Str     string
+	Num     int
+	When    time.Time
+	Obj     *RQ
+	Objs    []*RQ
+	Any     interface{}
+	Anys    []interface{}
+	Strs    []string
 	La      *RLA
 	Lb      *RLB
 	Listers []interface{}
